@@ -2,6 +2,8 @@ import Mathlib.Tactic
 import ExponaxModel.Model.Layout
 import ExponaxModel.Proofs.LayoutLemmas
 import ExponaxModel.Proofs.DFT
+import ExponaxModel.Proofs.ExactLinearModes
+import ExponaxModel.Proofs.ExactLinearIndex
 /-
 C04 — grid, FFT and Fourier-coefficient conventions are mutually consistent.
 Index / layout part (all `N`, no bound).  The DFT part (round trip, single-mode
@@ -175,5 +177,26 @@ theorem C04_parseval (D N : ℕ) (hD : 0 < D) (hN : 0 < N) (u : Array ℂ) (hu :
 example : (List.range 6).map (fftfreq 6) = [0, 1, 2, -3, -2, -1] := by decide
 example : (List.range 5).map (fftfreq 5) = [0, 1, 2, -2, -1] := by decide
 example : wavenumberShape 3 6 = [6, 6, 4] := by decide
+
+/-! ### n-D single-mode read-off (every D ≥ 1, every N, every wavenumber vector strictly below Nyquist — negative
+leading entries, either sign of the last entry, the self-paired case) -/
+
+/-- `a cos(2π κ·j/N + φ)` appears in exactly the stored mode(s) with wavenumber `κ` / `−κ` that the wavenumber array
+    names, with value `(a/2) N^D e^{±iφ}`, and nowhere else -/
+theorem C04_single_mode_nd (D N : ℕ) (hD : 0 < D) (hN : 0 < N) (κ : List ℤ) (hκ : ExactLinear.BelowNyquist D N κ)
+    (a φ : ℝ) (h : ℕ) (hh : h < numModes D N) :
+    (Transform.rfftnM D N (ExactLinear.modeField D N κ a φ)).getD h 0 =
+      (if wnFlat D N h = κ then (a : ℂ) / 2 * ((N ^ D : ℕ) : ℂ) * Complex.exp ((φ : ℂ) * Complex.I) else 0) +
+        if wnFlat D N h = ExactLinear.negK κ then (a : ℂ) / 2 * ((N ^ D : ℕ) : ℂ) * Complex.exp (-((φ : ℂ) * Complex.I))
+        else 0 :=
+  ExactLinear.rfftnM_modeField D N hD hN κ hκ a φ h hh
+
+/-- the wavenumber array is injective on stored indices, the last entry is never negative, and a wavenumber vector
+    below Nyquist with non-negative last entry is stored exactly once — its negative is stored iff the last entry is 0 -/
+theorem C04_stored_modes (D N : ℕ) (hD : 0 < D) (hN : 0 < N) (κ : List ℤ) (hκ : ExactLinear.BelowNyquist D N κ)
+    (hl : 0 ≤ κ.getD (D - 1) 0) :
+    (∃! h, h < numModes D N ∧ wnFlat D N h = κ) ∧
+      ((∃ h < numModes D N, wnFlat D N h = ExactLinear.negK κ) ↔ κ.getD (D - 1) 0 = 0) :=
+  ⟨ExactLinear.stored_existsUnique D N hD hN κ hκ hl, ExactLinear.partner_stored_iff D N hD hN κ hκ hl⟩
 
 end Exponax
